@@ -296,8 +296,9 @@ func customMD(ctx context.Context) (map[string][]string, string, string) {
 // Scripted implements the back-end service: behaviour is taken from the
 // script carried by the first request message.
 type Scripted struct {
-	Reg *Registry
-	Tag string
+	Reg     *Registry
+	Tag     string
+	Uploads *uploadStore
 }
 
 func finalErr(p *planWire) error {
@@ -415,6 +416,12 @@ func errClass(err error) string {
 }
 
 func (b *Scripted) Stream(md protoreflect.MethodDescriptor, ss grpc.ServerStream) error {
+	switch md.Name() {
+	case "Upload":
+		return b.upload(md, ss)
+	case "Download":
+		return b.download(md, ss)
+	}
 	if md.Input().FullName() != chunkMD.FullName() {
 		return status.Error(codes.Unimplemented, "proxy engine: method not scripted")
 	}
